@@ -24,7 +24,12 @@ RULE = ("(1) long strings: strings written through _write_longstring in both esc
         "implementation: same records or both reject. Search = the property itself on the implementation: "
         "generated FGDs (every value type, empty display name/default/description, 1-3k character strings, tagged "
         "duplicates, aliases, helpers, resources) and all shipped entities through export->parse->export (custom_syntax x "
-        "label_spawnflags), serialise->unserialise, and engine_def-style single lookups on fresh databases vs the full load.")
+        "label_spawnflags), serialise->unserialise, and engine_def-style single lookups on fresh databases vs the full load; "
+        "HISTORIES on a fresh process-wide database: engine_def(name) / engine_dbase() interleaved with in-place edits of previously returned "
+        "objects (defaults, types, deleting keyvalues/inputs/outputs, renaming, appending to val_list/resources/kv_order, editing a base, "
+        "collapse_bases, deleting entities): after every lookup the result is compared (deep, bases included) with a PRISTINE independently "
+        "unserialised reference and id-walked so that no mutable object is shared with any earlier result or with the database's cache; "
+        "failing histories are shrunk (ddmin) and replayable.")
 TRUSTED = ["models: lean/Srctools/Model/C16.lean (_fgd_escape, _write_longstring, _read_colon_list over Tok.run), "
            "C16KV.lean (KVDef.export/_parse, IODef.export/_parse, entity body loop, read_tags, _parse_colon_array; str.casefold/upper as "
            "per-character tables, str.strip for ASCII blanks), C16Bin.lean (BinStrDict, kv/io/resource/entity records as byte lists), C16Lazy.lean (EngineDB.get_ent/_parse_block/get_fgd); "
@@ -47,7 +52,8 @@ LEVEL_TEXT = ("Lean theorems over executable models: C16_longstring (for EVERY s
               "fix; C16_longstring_plain: the weaker law without custom syntax), C16_kvdef_roundtrip / C16_iodef_roundtrip / C16_entity_body_partial "
               "(parseKV (tokens (exportKV k)) = ok (norm k) for keyvalue lines incl. tags, flags, colon list, choices / spawnflags blocks; I/O lines; "
               "the entity body as a list of lines; the open spawnflags-default-desc class excluded with its negation witness), C16_strdict / C16_kv / C16_ent (string-index and record round trips of the binary format), C16_lazy_* (for every "
-              "query list on a fresh database the queried entities equal those of the full load; idempotence; order independence). "
+              "query list on a fresh database the queried entities equal those of the full load; idempotence; order independence; "
+              "C16_lazy_history: also for histories in which callers arbitrarily edit earlier results). "
               "Model tied to the current source by the translator (shape of _write_longstring, tokenizer options, index tables) and by a "
               "differential run after every step; the complete export/parse/serialise code is exercised by a round-trip search over "
               "generated FGDs and all shipped entities.")
@@ -1024,6 +1030,281 @@ def search_lazy_shipped(ctx, full, data):
         ctx.witness('lazy-classes', 'engine_classes() differs from the entity set of engine_dbase()', {'kind': 'engine_classes'})
 
 
+# ----------------------------------------------------------------------------------------- histories with edits
+
+def fresh_engine():
+    """Forget the process-wide engine database so that the next lookup starts from the file again."""
+    import srctools.fgd as F
+    if hasattr(F, '_ENGINE_DB'):
+        F._ENGINE_DB = None
+    else:                        # refactored away: a fresh import is the next best thing to a fresh process
+        import common
+        common.import_impl()
+
+
+def mutable_ids(ent, out=None, path='', seen=None, hold=None):
+    """id -> path of every MUTABLE object reachable from an EntityDef (following resolved bases).
+    `hold` (a list) receives the objects themselves: ids are only meaningful while the objects are alive, and
+    an in-place edit may drop them from the result."""
+    from srctools.fgd import EntityDef
+    out = {} if out is None else out
+    seen = set() if seen is None else seen
+    hold = [] if hold is None else hold
+    def put(o, pth):
+        out[id(o)] = pth
+        hold.append(o)
+    if id(ent) in seen:
+        return out
+    seen.add(id(ent))
+    put(ent, path + ent.classname)
+    for attr in ('keyvalues', 'inputs', 'outputs'):
+        d = getattr(ent, attr)
+        put(d, f'{path}{ent.classname}.{attr}')
+        for name, tagmap in d.items():
+            put(tagmap, f'{path}{ent.classname}.{attr}[{name}]')
+            for tags, val in tagmap.items():
+                put(val, f'{path}{ent.classname}.{attr}[{name}][{sorted(tags)}]')
+                vl = getattr(val, 'val_list', None)
+                if isinstance(vl, list):
+                    put(vl, f'{path}{ent.classname}.{attr}[{name}].val_list')
+    for attr in ('kv_order', 'bases', 'helpers', 'resources'):
+        v = getattr(ent, attr)
+        if isinstance(v, list):
+            put(v, f'{path}{ent.classname}.{attr}')
+    for h in ent.helpers:
+        put(h, f'{path}{ent.classname}.helper')
+    for b in ent.bases:
+        if isinstance(b, EntityDef):
+            mutable_ids(b, out, path + ent.classname + '>', seen, hold)
+    return out
+
+
+def db_cache_ids(names):
+    """Mutable objects of the engine database's own cache for the given class names (private state; {} if unknown)."""
+    import srctools.fgd as F
+    from srctools.fgd import EntityDef
+    out = {}
+    for db in (getattr(F, '_ENGINE_DB', None) or []):
+        em = getattr(db, 'ent_map', None)
+        if not isinstance(em, dict):
+            continue
+        for n in names:
+            e = em.get(n.casefold())
+            if isinstance(e, EntityDef):
+                mutable_ids(e, out, 'cache:')
+        cached = getattr(db, 'fgd', None)
+        if cached is not None:
+            for n in names:
+                e = cached.entities.get(n.casefold())
+                if e is not None:
+                    mutable_ids(e, out, 'cache.fgd:')
+    return out
+
+
+EDIT_KINDS = ['kv-default', 'kv-disp', 'kv-type', 'del-kv', 'add-kv', 'del-input', 'del-output', 'rename', 'vals-append',
+              'resources-append', 'clear-bases', 'base-kv', 'kv-order', 'alias-flag']
+
+
+def apply_edit(ent, kind, rng):
+    """Edit an EntityDef a caller was handed, IN PLACE. Returns a short description (None = nothing to edit)."""
+    from srctools.fgd import KVDef, ValueTypes, Resource, EntityDef
+    def some_kv():
+        ks = [k for k in ent.keyvalues if ent.keyvalues[k]]
+        if not ks:
+            return None
+        k = ks[rng.randrange(len(ks))]
+        return k, next(iter(ent.keyvalues[k].values()))
+    if kind in ('kv-default', 'kv-disp', 'kv-type', 'vals-append'):
+        r = some_kv()
+        if r is None:
+            return None
+        k, kv = r
+        if kind == 'kv-default':
+            kv.default = 'EDITED'
+        elif kind == 'kv-disp':
+            kv.disp_name = 'EDITED'
+        elif kind == 'kv-type':
+            kv.type = ValueTypes.STR_SOUND if kv.type is not ValueTypes.STR_SOUND else ValueTypes.INT
+        else:
+            if kv.val_list is None:
+                return None
+            kv.val_list.append((1 << 30, 'EDITED', True, frozenset()) if kv.type is ValueTypes.SPAWNFLAGS else ('e', 'EDITED', frozenset()))
+        return f'{kind} {k}'
+    if kind == 'del-kv':
+        r = some_kv()
+        if r is None:
+            return None
+        del ent.keyvalues[r[0]]
+        return f'del-kv {r[0]}'
+    if kind == 'add-kv':
+        ent.keyvalues['edited_key'] = {frozenset(): KVDef('edited_key', ValueTypes.STRING, 'Edited', 'x', '')}
+        return 'add-kv'
+    if kind in ('del-input', 'del-output'):
+        d = ent.inputs if kind == 'del-input' else ent.outputs
+        if not d:
+            return None
+        k = list(d)[rng.randrange(len(d))]
+        del d[k]
+        return f'{kind} {k}'
+    if kind == 'rename':
+        ent.classname = ent.classname + '_edited'
+        return 'rename'
+    if kind == 'resources-append':
+        if not isinstance(ent.resources, list):
+            return None
+        ent.resources.append(Resource('edited/file.mdl'))
+        return 'resources-append'
+    if kind == 'clear-bases':
+        if not ent.bases:
+            return None
+        ent.bases.clear()
+        return 'clear-bases'
+    if kind == 'base-kv':
+        bs = [b for b in ent.bases if isinstance(b, EntityDef) and b.keyvalues]
+        if not bs:
+            return None
+        b = bs[0]
+        k = list(b.keyvalues)[rng.randrange(len(b.keyvalues))]
+        next(iter(b.keyvalues[k].values())).default = 'EDITED-BASE'
+        return f'base-kv {b.classname}.{k}'
+    if kind == 'kv-order':
+        ent.kv_order.append('edited')
+        return 'kv-order'
+    if kind == 'alias-flag':
+        ent.is_alias = not ent.is_alias
+        return 'alias-flag'
+    return None
+
+
+def run_history(ops, want, stop_at_first=True):
+    """Run a history on a FRESH engine database. ops: {'op':'def','name'} | {'op':'dbase','sample':[names]} |
+    {'op':'edit','on':'def'|'dbase','name','kind','seed'} | {'op':'collapse'} (collapse_bases on the last FGD handed out).
+    After every lookup the result is compared with the pristine reference `want` and id-walked against every
+    earlier result and the database's own cache. Returns a list of problems (strings)."""
+    from srctools.fgd import EntityDef, FGD
+    fresh_engine()
+    held_def = {}        # name -> last EntityDef handed out
+    held_fgd = []        # FGDs handed out
+    owners = {}          # id -> (who, path) of mutable objects of results handed out so far (results stay alive in `keep`)
+    keep = []
+    probs = []
+
+    def check(ent, key, who, step):
+        d = G.first_diff(want[key], G.canon_ent(ent, deep_bases=True), key)
+        if d:
+            probs.append(f'{who}: definition differs from the database file: {d}')
+        ids = mutable_ids(ent, hold=keep)
+        for i, pth in ids.items():
+            if i in owners and owners[i][0] != step:      # sharing inside ONE result (one FGD) is fine
+                probs.append(f'{who}: {pth} is the same object as {owners[i][1]} handed out at step {owners[i][0]}')
+                break
+        cache = db_cache_ids([key])
+        for i, pth in ids.items():
+            if i in cache:
+                probs.append(f'{who}: {pth} is the database\'s own object {cache[i]}')
+                break
+        for i, pth in ids.items():
+            owners.setdefault(i, (step, pth))
+
+    for n, op in enumerate(ops):
+        try:
+            if op['op'] == 'def':
+                e = EntityDef.engine_def(op['name'])
+                keep.append(e)
+                check(e, op['name'].casefold(), f'step {n} engine_def({op["name"]!r})', n)
+                held_def[op['name'].casefold()] = e
+            elif op['op'] == 'dbase':
+                f = FGD.engine_dbase()
+                keep.append(f)
+                if set(f.entities) != set(want):
+                    probs.append(f'step {n} engine_dbase(): entity set differs from the database file: {sorted(set(f.entities) ^ set(want))[:4]}')
+                for nm in op['sample']:
+                    e = f.entities.get(nm.casefold())
+                    if e is None:
+                        probs.append(f'step {n} engine_dbase(): {nm} missing')
+                    else:
+                        check(e, nm.casefold(), f'step {n} engine_dbase()[{nm!r}]', n)
+                held_fgd.append(f)
+            elif op['op'] == 'edit':
+                tgt = held_def.get(op['name'].casefold()) if op['on'] == 'def' else (held_fgd[-1].entities.get(op['name'].casefold()) if held_fgd else None)
+                if tgt is not None:
+                    apply_edit(tgt, op['kind'], random.Random(op['seed']))
+            elif op['op'] == 'collapse':
+                if held_fgd:
+                    held_fgd[-1].collapse_bases()
+            elif op['op'] == 'del-ent':
+                if held_fgd:
+                    held_fgd[-1].entities.pop(op['name'].casefold(), None)
+        except Exception as ex:
+            probs.append(f'step {n} {op["op"]}: raised {G.exc_str(ex)}')
+        if probs and stop_at_first:
+            break
+    fresh_engine()
+    return probs
+
+
+def gen_history(rng, names, aliases):
+    pool = [rng.choice(names) for _ in range(3)] + ([rng.choice(aliases)] if aliases and rng.random() < 0.4 else [])
+    ops = []
+    n_dbase = 0
+    for _ in range(rng.randrange(3, 9)):
+        r = rng.random()
+        nm = rng.choice(pool)
+        if r < 0.4:
+            ops.append({'op': 'def', 'name': nm.upper() if rng.random() < 0.1 else nm})
+        elif r < 0.52 and n_dbase < 2:
+            n_dbase += 1
+            ops.append({'op': 'dbase', 'sample': sorted(set(pool + [rng.choice(names) for _ in range(4)]))})
+        elif r < 0.9:
+            ops.append({'op': 'edit', 'on': rng.choice(['def', 'dbase']), 'name': nm, 'kind': rng.choice(EDIT_KINDS), 'seed': rng.randrange(1 << 30)})
+        elif r < 0.95:
+            ops.append({'op': 'collapse'})
+        else:
+            ops.append({'op': 'del-ent', 'name': nm})
+    # always end by looking again at everything that may have been touched
+    for nm in sorted(set(pool)):
+        ops.append({'op': 'def', 'name': nm})
+    return ops
+
+
+def search_histories(ctx):
+    """Histories of lookups interleaved with IN-PLACE edits of what earlier lookups returned: a result handed out
+    belongs to the caller, so every later lookup must still give the definitions of the database file."""
+    from srctools import _engine_db as edb
+    want = _STATE.get('want')
+    if want is None:
+        pristine = edb.unserialise(io.BytesIO(shipped_bytes())).get_fgd()      # never handed to anything that edits
+        want = _STATE['want'] = {k: G.canon_ent(e, deep_bases=True) for k, e in pristine.entities.items()}
+        _STATE['aliases'] = sorted(k for k, e in pristine.entities.items() if e.is_alias)
+    names = sorted(want)
+    aliases = _STATE['aliases']
+    rng = ctx.rng
+    x, y = names[len(names) // 3], names[len(names) // 2]
+    fixed = [
+        [{'op': 'dbase', 'sample': [x]}, {'op': 'collapse'}, {'op': 'def', 'name': x}, {'op': 'dbase', 'sample': [x, y]}],
+        [{'op': 'dbase', 'sample': [x]}, {'op': 'edit', 'on': 'dbase', 'name': x, 'kind': 'kv-default', 'seed': 1}, {'op': 'def', 'name': x}],
+        [{'op': 'def', 'name': x}, {'op': 'edit', 'on': 'def', 'name': x, 'kind': 'del-input', 'seed': 2}, {'op': 'def', 'name': x}],
+        [{'op': 'dbase', 'sample': [x]}, {'op': 'dbase', 'sample': [x]}],
+        [{'op': 'def', 'name': x}, {'op': 'edit', 'on': 'def', 'name': x, 'kind': 'base-kv', 'seed': 3}, {'op': 'def', 'name': y}],
+        [{'op': 'def', 'name': 'prop_dynamic'}, {'op': 'edit', 'on': 'def', 'name': 'prop_dynamic', 'kind': 'resources-append', 'seed': 4}, {'op': 'def', 'name': 'prop_dynamic'}],
+        [{'op': 'def', 'name': x}, {'op': 'dbase', 'sample': [x]}, {'op': 'edit', 'on': 'dbase', 'name': x, 'kind': 'rename', 'seed': 5}, {'op': 'del-ent', 'name': y}, {'op': 'dbase', 'sample': [x, y]}],
+    ]
+    hist = fixed + [gen_history(rng, names, aliases) for _ in range(ctx.budget(14, 150))]
+    for ops in hist:
+        probs = run_history(ops, want)
+        ctx.case({'history': [o['op'] for o in ops]}, nontrivial=any(o['op'] in ('edit', 'collapse', 'del-ent') for o in ops), sample_every=17)
+        ctx.count('history:runs')
+        for o in ops:
+            ctx.count('history:op:' + o['op'])
+        if probs:
+            small = ddmin(ops, lambda sub: bool(run_history(sub, want)), budget=40) if len(ops) > 2 else ops
+            p2 = run_history(small, want) or probs
+            ctx.witness('history-' + ('shared' if 'same object' in p2[0] or 'own object' in p2[0] else 'differs'),
+                        f'history {[(o["op"], o.get("name", ""), o.get("kind", "")) for o in small]}: {p2[0]}', {'kind': 'history', 'ops': small})
+            if ctx.hist.get('witnesses', 0) >= 6:
+                break
+
+
 def search(ctx):
     t0 = time.time()
     if ctx.evaluations == 0:      # driver missing: the long-string oracle still runs on the implementation
@@ -1042,6 +1323,7 @@ def search(ctx):
                     check_long_property(ctx, t, ext, out, impl_read_colon(out + '\n', True) if out is not None else {})
     guard(ctx, 'generated FGDs', search_generated, ctx)
     guard(ctx, 'shipped database', search_shipped, ctx)
+    guard(ctx, 'histories with in-place edits', search_histories, ctx)
     shrink(ctx)
     ctx.notes.append(f'search wall {time.time() - t0:.1f}s')
 
@@ -1118,6 +1400,18 @@ def replay(ctx, payload):
                 print(q, d)
                 if d:
                     ctx.witness('lazy-differs', d, inp)
+    elif kind == 'history':
+        search_histories_want = None
+        from srctools import _engine_db as edb
+        pristine = edb.unserialise(io.BytesIO(shipped_bytes())).get_fgd()
+        want = {k: G.canon_ent(e, deep_bases=True) for k, e in pristine.entities.items()}
+        probs = run_history(inp['ops'], want, stop_at_first=False)
+        for o in inp['ops']:
+            print('  ', o)
+        for p_ in probs:
+            print('  ->', p_)
+        for p_ in probs:
+            ctx.witness('history', p_, inp)
     elif kind == 'part':
         ctx.tier = 'quick'
         guard(ctx, 'generated FGDs', search_generated, ctx)
